@@ -1020,10 +1020,11 @@ End Core2.
 (* ------------------------------------------------------------------------------------------ *)
 Lemma ssr_list_range {T} `{Num T} (l : list T) q : 0 <= ssr_list l q <= Z.of_nat (length l).
 Proof.
-  induction l as [|e t IH]; simpl; [lia|]. destruct (nltb q e); lia.
+  induction l as [|e t IH]; [simpl; lia|]. cbn [ssr_list length]. rewrite Nat2Z.inj_succ.
+  destruct (nltb q e); lia.
 Qed.
 Lemma ssr_list_pos {T} `{Num T} (e : T) t q : nltb q e = false -> 1 <= ssr_list (e :: t) q.
-Proof. intros E. simpl. rewrite E. pose proof (ssr_list_range t q). lia. Qed.
+Proof. intros E. cbn [ssr_list]. rewrite E. pose proof (ssr_list_range t q). lia. Qed.
 
 (* ------------------------------------------------------------------------------------------ *)
 (* 6. every vertex of a returned ray lies in the hull of the axes (real arithmetic)              *)
